@@ -82,6 +82,65 @@ func main() {
 				names[filepath.Base(k)] = true
 			}
 		}
+		// pre-pass: unexported struct fields of this package that are maps wherever they are declared
+		fieldKinds := map[string][2]int{} // name -> {map declarations, other declarations}
+		for name := range names {
+			if !strings.HasSuffix(name, ".go") || strings.HasSuffix(name, "_test.go") {
+				continue
+			}
+			path := filepath.Join(dir, name)
+			src := path
+			if r, ok := inRepl[path]; ok {
+				if r == "" {
+					continue
+				}
+				src = r
+			}
+			b, err := os.ReadFile(src)
+			if err != nil {
+				fatal("%v", err)
+			}
+			f, err := parser.ParseFile(token.NewFileSet(), path, b, 0)
+			if err != nil {
+				fatal("%v", err)
+			}
+			ast.Inspect(f, func(n ast.Node) bool {
+				st, ok := n.(*ast.StructType)
+				if !ok || st.Fields == nil {
+					return true
+				}
+				for _, fld := range st.Fields.List {
+					// only keys of a predeclared ordered type: other key types cannot be told apart
+					// syntactically (interfaces do not satisfy comparable at the repository's language
+					// version, pointers have no stable order)
+					isMap := false
+					if mt, ok := fld.Type.(*ast.MapType); ok {
+						if id, ok := mt.Key.(*ast.Ident); ok {
+							switch id.Name {
+							case "string", "int", "int32", "int64", "uint", "uint32", "uint64":
+								isMap = true
+							}
+						}
+					}
+					for _, id := range fld.Names {
+						k := fieldKinds[id.Name]
+						if isMap {
+							k[0]++
+						} else {
+							k[1]++
+						}
+						fieldKinds[id.Name] = k
+					}
+				}
+				return true
+			})
+		}
+		mapFields = map[string]bool{}
+		for name, k := range fieldKinds {
+			if k[0] > 0 && k[1] == 0 && !ast.IsExported(name) {
+				mapFields[name] = true
+			}
+		}
 		for name := range names {
 			if !strings.HasSuffix(name, ".go") || strings.HasSuffix(name, "_test.go") {
 				continue
@@ -122,6 +181,10 @@ func main() {
 		fatal("%v", err)
 	}
 }
+
+// mapFields: unexported struct fields of the package being rewritten that are maps in every
+// declaration; `for k, v := range x.f` over such a field is given a deterministic order.
+var mapFields map[string]bool
 
 type rewriter struct {
 	fset    *token.FileSet
@@ -409,6 +472,31 @@ func (r *rewriter) stmt(s ast.Stmt) []ast.Stmt {
 	case *ast.RangeStmt:
 		r.expr(x.X, nil)
 		r.block(x.Body)
+		if se, ok := x.X.(*ast.SelectorExpr); ok && mapFields[se.Sel.Name] && pureOperand(se) && x.Tok == token.DEFINE && x.Key != nil {
+			// map iteration order is the one source of nondeterminism the scheduler cannot own at run
+			// time: iterate over the keys in sorted order instead (a key deleted meanwhile is skipped,
+			// as the language guarantees for the native loop)
+			key, _ := x.Key.(*ast.Ident)
+			if key != nil {
+				kname := key.Name
+				if kname == "_" {
+					kname = fmt.Sprintf("vschedKey%d", r.tmpN)
+					r.tmpN++
+				}
+				val := ast.Expr(ast.NewIdent("_"))
+				if x.Value != nil {
+					val = x.Value
+				}
+				okName := fmt.Sprintf("vschedOk%d", r.tmpN)
+				r.tmpN++
+				look := &ast.AssignStmt{Lhs: []ast.Expr{val, ast.NewIdent(okName)}, Tok: token.DEFINE, Rhs: []ast.Expr{&ast.IndexExpr{X: x.X, Index: ast.NewIdent(kname)}}}
+				skip := &ast.IfStmt{Cond: &ast.UnaryExpr{Op: token.NOT, X: ast.NewIdent(okName)}, Body: &ast.BlockStmt{List: []ast.Stmt{&ast.BranchStmt{Tok: token.CONTINUE}}}}
+				x.Body.List = append([]ast.Stmt{look, skip}, x.Body.List...)
+				x.Key, x.Value = ast.NewIdent("_"), ast.NewIdent(kname)
+				x.X = call("Keys", x.X)
+				r.used, r.changed = true, true
+			}
+		}
 		return []ast.Stmt{x}
 	case *ast.SwitchStmt:
 		if x.Init != nil {
